@@ -322,16 +322,19 @@ def _body(cfg, darsia, tmp):
                 ok.append(bool(okb and isinstance(back, darsia.ScalarImage) and back.img.dtype == dt and np.array_equal(np.squeeze(back.img), np.squeeze(grey)) and back.img.shape[:2] == shp))
         S.claim("lossless_byte_strings_decode_to_the_original_rgb_array", all(ok))
         ok = []
-        for ext in (".png", ".tif"):
-            rgb = rng.integers(0, 255, size=(6, 4, 3)).astype(np.uint8)
-            im = darsia.OpticalImage(rgb.copy(), dimensions=[1.2, 0.8])
-            p = tmp / ("written" + ext)
-            im.write(p)
-            back = darsia.imread(p, dimensions=[1.2, 0.8])
-            # the reader delivers optical images as floats in [0, 1]: "the same colours" = the same values on that scale
-            import skimage
+        import skimage
 
-            ok.append(bool(type(back) is darsia.OpticalImage and back.img.shape == rgb.shape and np.allclose(skimage.img_as_float(back.img), skimage.img_as_float(rgb), rtol=0, atol=1e-12) and back.color_space == "RGB"))
+        for ext in (".png", ".tif"):
+            for space in ("RGB", "BGR"):
+                arr = rng.integers(0, 255, size=(6, 4, 3)).astype(np.uint8)
+                im = darsia.OpticalImage(arr.copy(), dimensions=[1.2, 0.8], color_space=space)
+                p = tmp / ("written_" + space + ext)
+                im.write(p)
+                back = darsia.imread(p, dimensions=[1.2, 0.8])
+                rgb = arr if space == "RGB" else arr[..., ::-1]
+                # the reader delivers optical images as floats in [0, 1] in RGB: "the same colours" = the same values on that scale
+                ok.append(bool(type(back) is darsia.OpticalImage and back.img.shape == rgb.shape and np.allclose(skimage.img_as_float(back.img), skimage.img_as_float(rgb), rtol=0, atol=1e-12) and back.color_space == "RGB"))
+                ok.append(bool(np.array_equal(im.img, arr) and im.color_space == space))  # writing leaves the image as it was
         S.claim("optical_image_written_losslessly_reads_back_identically", all(ok))
         return
     raise ValueError(k)
